@@ -26,6 +26,10 @@ CHECKS = {
    text="Same migration runs with a TTL key population (30 ms..1 h on the virtual clock, and persistent keys); every third run the source nodes answer PTTL with a buggified value {0,1,2,999,2^63-1,-1,malformed}. At the receiving SimRedis every successful RESTORE must be consistent with at least one PTTL reading of that transfer: -1 => ttl 0; p>=1 => 1<=ttl<=p; 0 => not persistent.", note="The three transfer paths are distinguished only by which component issued the PTTL (scan client vs. proxy backend); all are covered by the same oracle at the Redis model.", ref="§7 C19"),
  "C07": dict(engine="E2 cluster-sim", cat="exploration", tech="deterministic whole-system simulation with fault injection: message drop/duplicate/reset/stall on coordinator calls, coordinator crash/restart, proxy restart with empty state, unreachable proxies; safety over the recorded call log + bounded-liveness convergence oracle after faults stop",
    text="Real broker, 1-2 real coordinators (all four production loops), 4-8 real proxies. Within a 12 s fault window the plan injects directed and random message faults on coordinator->proxy and coordinator->broker calls, coordinator crashes at arbitrary instants, proxy restarts with empty state, proxies unreachable for 0.3-8 s (detector -> quorum -> failover). Safety: accepted SETCLUSTER/SETREPL epochs strictly increase per proxy incarnation, GETEPOCH never decreases, every migration committed at most once, destination updated before source inside a migration-sync round. Liveness: 30 virtual s after the last fault every reachable non-failed proxy reports the broker's epoch, advertises the broker's slot map, its Redis nodes have the broker's replication roles, and no finished migration is uncommitted.", note="Liveness bound B=30 s virtual (fault-free convergence < 3 s). The operator's re-registration of healed proxies is part of 'faults stop'. dst-before-src is judged only with migration_limit=1 where rounds cannot interleave.", ref="§7 C07"),
+ "C02": dict(engine="E2 cluster-sim", cat="exploration", tech="deterministic whole-system simulation: metadata delivered by the real coordinator encoding path to real proxies; probe rounds from every start proxy judged against the broker's designated owners via the Redis model's execution log",
+   text="Clusters of 1-3 chunks are driven through scaling, direct failovers (promoted replicas), rebalances and re-registrations with slow migrations in flight; metadata reaches the proxies only through the real coordinator sync (plain or compressed). Probe rounds (every range boundary +-1 plus random slots, occasionally all 16384, from EVERY start proxy, following MOVED) are judged when all proxies hold the broker's epoch before and after: the GET executed exactly once, on a node the broker designates (owner, or migration source/destination), no command for the key reached any other node, <=1 redirection for stable and <=3 for migrating slots.", note="Phases of the migration handshake vary across probes with virtual time; the destination-only-after-switch clause is checked in its weaker form (source or destination).", ref="§7 C02"),
+ "C14": dict(engine="E2 cluster-sim", cat="exploration", tech="deterministic whole-system simulation with fault injection (a proxy lagging behind on metadata): CLUSTER NODES/SLOTS snapshots of every proxy compared with each other and with the routing observed by probes",
+   text="Same runs, without requiring cluster-wide sync, plus plans in which one proxy cannot be reached by the coordinator for 2.5-7 s (long PRECHECK windows). Per proxy and round: INFO/NODES/SLOTS/NODES snapshot, probes, snapshot again; judged when unchanged: no slot listed twice, NODES == SLOTS, a slot that is not advertised is not served either, a non-migrating slot (by the proxy's own metadata) is advertised at the proxy itself iff it executes the probe and otherwise at the MOVED target, on the source/destination proxies the same holds for migrating slots, bystanders advertise a migrating slot at its source or destination only. Both NODES versions (per proxy).", note="For bystanders the state of the handshake is unknowable; either side is accepted (weaker than a global reading of the property, sound).", ref="§7 C14"),
 }
 NOT_APPLICABLE = {
  "C02": "not yet built in this tree: cluster-sim (E2) check under construction; see DESIGN §11.1",
